@@ -51,6 +51,9 @@
 (*                   probing with flags = 0 would enter strict mode        *)
 (*   "PrctlErrorSwallowed" (never in the code; a seeded change) a failing  *)
 (*                   prctl(PR_SET_NO_NEW_PRIVS) does not stop the load     *)
+(*   "PrctlBeforeAssemble" (never in the code; a seeded change) the bit is *)
+(*                   set first thing, before the policy is assembled and   *)
+(*                   before the goroutine is wired to its thread           *)
 (***************************************************************************)
 EXTENDS Integers, Sequences, FiniteSets, TLC, SequencesExt
 CONSTANTS Threads, MaxLoads, Dev,
@@ -162,15 +165,22 @@ KStrict(t, flagword) ==
 Call(t, k, r) ==
   /\ pc = "idle" /\ loads < MaxLoads /\ t \in threads \cap Callers
   /\ m' = t /\ kind' = k /\ req' = r
-  /\ pc' = CASE k = "load" -> "assemble" [] k = "supported" -> "seccomp" [] k = "setnnp" -> "prctl"
+  /\ pc' = CASE k = "load" -> (IF "PrctlBeforeAssemble" \in Dev THEN "prctl" ELSE "assemble") [] k = "supported" -> "seccomp" [] k = "setnnp" -> "prctl"
   /\ fid' = loads + 1 /\ res' = "none" /\ kret' = NoKret /\ locked' = FALSE
   /\ UNCHANGED <<threads, chain, nnp, strict, priv, loads, synced>>
 
+\* Assembling a policy takes time and the goroutine is not wired to its thread yet: the scheduler may resume it on another
+\* thread meanwhile (at most one such move per load is modelled; the harness forces it at hook H3, the first assembler step)
+AttemptMigrateAsm(t) ==
+  /\ pc = "assemble" /\ kind = "load" /\ t \in threads /\ t # m /\ ~locked
+  /\ m' = t /\ pc' = "assemble2"
+  /\ UNCHANGED <<threads, chain, nnp, strict, priv, kind, locked, req, res, fid, loads, kret, synced>>
+
 \* LoadFilter: Policy.Assemble + bpf.Assemble; an invalid policy fails here
 LF_Assemble ==
-  /\ pc = "assemble"
+  /\ pc \in {"assemble", "assemble2"}
   /\ IF req.pol = "invalid" THEN pc' = "ret" /\ res' = "err" /\ UNCHANGED locked
-     ELSE /\ pc' = "prctl" /\ UNCHANGED res
+     ELSE /\ pc' = (IF "PrctlBeforeAssemble" \in Dev THEN "sched" ELSE "prctl") /\ UNCHANGED res
           \* the goroutine is wired to its thread for the two system calls
           /\ locked' = ("NoThreadLock" \notin Dev)
   /\ UNCHANGED <<threads, chain, nnp, strict, priv, kind, m, req, fid, loads, kret, synced>>
@@ -183,7 +193,7 @@ LF_Prctl ==
      /\ nnp' = IF wanted /\ ~fails THEN [nnp EXCEPT ![m] = TRUE] ELSE nnp
      /\ IF kind = "setnnp" THEN pc' = "ret" /\ res' = (IF fails THEN "err" ELSE "nil")
         ELSE IF fails /\ "PrctlErrorSwallowed" \notin Dev THEN pc' = "ret" /\ res' = "err"     \* the load stops here
-        ELSE pc' = "sched" /\ UNCHANGED res
+        ELSE pc' = (IF "PrctlBeforeAssemble" \in Dev THEN "assemble" ELSE "sched") /\ UNCHANGED res
   /\ UNCHANGED <<threads, chain, strict, priv, kind, m, locked, req, fid, loads, kret, synced>>
 
 \* seccomp(2) on the then-current thread and the mapping of its outcome
@@ -232,6 +242,7 @@ EnvNext ==
   \/ \E t \in threads : DenyPrctl(t)
   \/ \E p \in threads, n \in Threads : ThreadCreate(p, n)
   \/ \E t \in threads : AttemptMigrate(t)
+  \/ \E t \in threads : AttemptMigrateAsm(t)
 Next == LibNext \/ EnvNext
 Spec == Init /\ [][Next]_vars
 
